@@ -83,6 +83,11 @@ func (s *Sig) render(tag string) string {
 		} else {
 			stmt = "for (sp = 0; sp < 2; sigX()) { sp++ }"
 		}
+	case "ifelse":
+		// no braces: `exit`/`next` directly followed by else
+		stmt = "if (true) " + s.What + " else print \"never\""
+	case "elseif":
+		stmt = "if (false) print \"never\" else if (true) " + s.What + " else print \"never2\""
 	case "forinit":
 		// ... while the first clause is evaluated
 		if s.What == "next" {
